@@ -5,8 +5,10 @@
 //! Trees are multi-module JVM layouts: every module of a chain of suffix-related directory names
 //! (`app`, `webapp`, `mywebapp`; `core`, `testcore`, …) carries a file with the same name and the
 //! same layout below the module (`src/com/acme/Main.java`), some modules are repeated one level
-//! down (`sub/app/…`: the deeper path ENDS WITH the shallower one component-wise) or in a hidden
-//! directory. The inputs name existing files through spellings that `add_results` canonicalises
+//! down (`sub/app/…`: the deeper path ENDS WITH the shallower one component-wise; before fix fdef150
+//! an existing `app/…` was then re-mapped to it — corpus/C12/java-nested-module-existing-file.json)
+//! or in a hidden directory; in some trees all modules sit below a common `mods/` directory and the
+//! inputs also contain PARTIAL paths (`app/src/M.java` for `mods/app/src/M.java`). The inputs name existing files through spellings that `add_results` canonicalises
 //! (plain, `./`, `//`, `/./`, absolute), and — this is what switches the lookup on — mostly also a
 //! covered file that is not on disk. Options as `main` passes them: `--source-dir S`, prefix dir =
 //! `S` (main's default) or none.
@@ -23,13 +25,6 @@ use serde_json::{json, Value};
 use std::collections::{BTreeMap, BTreeSet};
 use std::path::Path;
 use std::sync::Mutex;
-
-/// an EXISTING Java/Kotlin file below the source dir, named by a key that `add_results`
-/// canonicalised, is looked up by `map_partial_path` like a partial path and re-mapped to ANOTHER
-/// file: a deeper file whose path ends with its path component-wise and that the directory walk
-/// yields first, or the only visible file of that name when the file itself is not a candidate
-/// (hidden directory)
-pub const F_REMAP: &str = "C12-partial-path-remaps-existing-file";
 
 const CHAINS: &[&[&str]] = &[
     &["app", "webapp", "mywebapp", "oldmywebapp"],
@@ -65,6 +60,9 @@ fn add_file(dirs: &mut Vec<String>, files: &mut Vec<String>, path: &str) {
 
 /// `nested`: also generate `sub/<module>/…` and hidden copies (the baseline's own weak spots)
 fn build_mtree(rng: &mut Rng, base: &Path, idx: u64, nested: bool) -> Tree {
+    // every fourth tree: all modules below one common directory (partial paths `app/…` then name
+    // `mods/app/…`, and `mods/webapp/…` ends with them textually but not component-wise)
+    let parent = if idx % 4 >= 2 { "mods/" } else { "" };
     let mut dirs: Vec<String> = vec![];
     let mut files: Vec<String> = vec![];
     let mut chains: Vec<usize> = (0..CHAINS.len()).collect();
@@ -81,7 +79,7 @@ fn build_mtree(rng: &mut Rng, base: &Path, idx: u64, nested: bool) -> Tree {
                 continue;
             }
             let below = if lay.is_empty() { name.to_string() } else { format!("{}/{}", lay, name) };
-            add_file(&mut dirs, &mut files, &format!("src/{}/{}", m, below));
+            add_file(&mut dirs, &mut files, &format!("src/{}{}/{}", parent, m, below));
             if nested && rng.chance(1, 4) {
                 add_file(&mut dirs, &mut files, &format!("src/{}/{}/{}", rng.pick(&["sub", "a", "zz", "q", "k9", "deep"]), m, below));
             }
@@ -214,14 +212,22 @@ fn gen_jcase(rng: &mut Rng, t: &Tree, stats: &mut BTreeMap<String, u64>) -> JCas
             *stats.entry("java.missing.non_java".into()).or_insert(0) += 1;
             push(rng, "build/gen/gone.c".into(), &mut entries);
         }
-        4 => {
-            // a partial path: the last components of an existing file (what the lookup is for)
+        4 | 5 | 6 => {
+            // partial paths: an existing file without its leading 1.. components (what the lookup
+            // is for)
             *stats.entry("java.missing.partial_path_of_existing".into()).or_insert(0) += 1;
-            let f = *rng.pick(&jfiles);
-            let cs: Vec<&str> = f.split('/').collect();
-            let k = cs.len().saturating_sub(rng.range(1, 2) as usize);
-            let part = cs[k.min(cs.len() - 1)..].join("/");
-            push(rng, part, &mut entries);
+            for _ in 0..rng.range(1, 2) {
+                let f = *rng.pick(&jfiles);
+                let cs: Vec<&str> = f.split('/').collect();
+                if cs.len() < 2 {
+                    continue;
+                }
+                let k = rng.range(1, cs.len() as u64 - 1) as usize;
+                let part = cs[k..].join("/");
+                if !entries.iter().any(|(e, _)| *e == part) {
+                    push(rng, part, &mut entries);
+                }
+            }
         }
         _ => {
             *stats.entry("java.missing.generated_java".into()).or_insert(0) += 1;
@@ -279,6 +285,7 @@ fn existing_rel(t: &Tree, key: &str) -> Option<String> {
 struct Look {
     needed: bool,
     cands: BTreeMap<String, Vec<String>>,
+    src: std::path::PathBuf,
 }
 
 /// lines 256-334 restated over the harness's own walk of the tree (component-wise `ends_with`)
@@ -309,13 +316,13 @@ fn look(t: &Tree, ord: &[String], cfg: &Cfg, map_keys: &[String]) -> Look {
             }
         }
     }
-    Look { needed, cands }
+    Look { needed, cands, src: sd.to_path_buf() }
 }
 
 impl Look {
     /// where the lookup sends the path `rel` (prefix already removed)
     fn target(&self, rel: &str) -> String {
-        if !self.needed || !is_jk(rel) {
+        if !self.needed || !is_jk(rel) || self.src.join(rel).is_file() {
             return rel.to_string();
         }
         let name = Path::new(rel).file_name().unwrap().to_str().unwrap();
@@ -361,7 +368,6 @@ fn joracle(rep: &mut Report, t: &Tree, ord: &[String], case: &JCase, map_keys: &
             None => loose.push(i),
         }
     }
-    let mut remapped: BTreeSet<String> = BTreeSet::new();
     for (f, es) in &by_file {
         let want: BTreeSet<u32> = es.iter().flat_map(|&i| markers(&flat[i].1)).collect();
         let holding: Vec<&(String, String, CovResult)> = recs.iter().filter(|(_, _, c)| !markers(c).is_disjoint(&want)).collect();
@@ -378,20 +384,24 @@ fn joracle(rep: &mut Report, t: &Tree, ord: &[String], case: &JCase, map_keys: &
             fails.push((format!("{:?}: line counts are not the clamped sums of the inputs naming it", f), None));
         }
         if rel != f || *abs != format!("{}/{}", t.src, f) {
-            // the lookup itself (restated component-wise) sends this file's path elsewhere
-            let tgt = lk.target(&rel_of_key(&case.cfg, &format!("{}/{}", t.src, f)));
-            if tgt != *f && *rel == tgt {
-                remapped.insert(tgt.clone());
-                if counting {
-                    rep.count(if lk.cands.get(f.rsplit('/').next().unwrap()).map_or(false, |o| o.len() == 1) {
-                        "java.remap.single_other_candidate"
-                    } else {
-                        "java.remap.deeper_candidate_first"
-                    });
-                }
-                fails.push((format!("existing file {:?} is reported as {:?} (map_partial_path: another candidate wins)", f, rel), Some(F_REMAP)));
-            } else {
-                fails.push((format!("existing file {:?} is reported as ({:?}, {:?})", f, abs, rel), None));
+            // (since fix fdef150 a path that names a file below the source dir is never looked up)
+            fails.push((format!("existing file {:?} is reported as ({:?}, {:?})", f, abs, rel), None));
+        }
+    }
+    // a key that does not canonicalise (partial path, missing file) is reported under what the
+    // component-wise lookup answers for it
+    for &i in &loose {
+        let mk = markers(&flat[i].1);
+        let k = rel_of_key(&case.cfg, &flat[i].0);
+        if k.starts_with('/') || k.contains("..") {
+            continue;
+        }
+        if let (Some(want), Some((_, rel, _))) = (spec_normalize(&lk.target(&k)), recs.iter().find(|(_, _, c)| !markers(c).is_disjoint(&mk))) {
+            if counting && want != spec_normalize(&k).unwrap_or_default() {
+                rep.count("java.partial_key_resolved_to_a_file");
+            }
+            if *rel != want {
+                fails.push((format!("key {:?} is reported as {:?}; the lookup (first candidate in walk order that ends with the path, component-wise) gives {:?}", flat[i].0, rel, want), None));
             }
         }
     }
@@ -412,9 +422,7 @@ fn joracle(rep: &mut Report, t: &Tree, ord: &[String], case: &JCase, map_keys: &
             let k = rel_of_key(&case.cfg, &flat[i].0);
             lk.target(&k) == **rel || spec_normalize(&k).as_deref() == Some(*rel)
         });
-        if remapped.contains(*rel) {
-            fails.push((format!("{:?} is listed {} times (an existing file was re-mapped onto it)", rel, cnt), Some(F_REMAP)));
-        } else if partial_spelling {
+        if partial_spelling {
             fails.push((format!("{:?} is listed {} times (a partial / non-canonicalising spelling next to the file's own record)", rel, cnt), Some(FINDING)));
         } else {
             fails.push((format!("{:?} is listed {} times", rel, cnt), None));
@@ -719,8 +727,7 @@ pub fn run(rep: &mut Report) {
     let n_trees = rep.budget(8, 3);
     let per_tree = rep.budget(40, 4) * 8 / n_trees;
     for ti in 0..n_trees {
-        // every other tree stays inside the domain where the unchanged code satisfies C12 (sibling
-        // modules only); the others add nested / hidden copies (finding C12-partial-path-remaps-…)
+        // every other tree has sibling modules only; the others add nested / hidden copies
         let t = build_mtree(&mut rng, &base, 3000 + ti, ti % 2 == 1);
         let mut stats: BTreeMap<String, u64> = BTreeMap::new();
         let cases: Vec<JCase> = (0..per_tree).map(|_| gen_jcase(&mut rng, &t, &mut stats)).collect();
@@ -728,6 +735,9 @@ pub fn run(rep: &mut Report) {
             rep.count_n(&k, v);
         }
         rep.count(if ti % 2 == 1 { "java.tree.nested_or_hidden_copies" } else { "java.tree.sibling_modules_only" });
+        if (3000 + ti) % 4 >= 2 {
+            rep.count("java.tree.modules_below_common_dir");
+        }
         run_tree(rep, &t, &cases, &format!("{}", ti), ti < 1);
     }
     rep.rule.push_str("; part Java: multi-module trees (chains of suffix-related module names app/webapp/mywebapp, \
